@@ -3332,6 +3332,8 @@ func getEVPNRouteType(t uint8) (EVPNRouteTypeInterface, error) {
 		return &EVPNEthernetSegmentRoute{}, nil
 	case EVPN_IP_PREFIX:
 		return &EVPNIPPrefixRoute{}, nil
+	case EVPN_I_PMSI:
+		return &EVPNIPMSIRoute{}, nil
 	}
 	return nil, NewMessageError(BGP_ERROR_UPDATE_MESSAGE_ERROR, BGP_ERROR_SUB_MALFORMED_ATTRIBUTE_LIST, nil, fmt.Sprintf("Unknown EVPN Route type: %d", t))
 }
